@@ -89,3 +89,22 @@ def runFn (sys : Sys A S O G W) (a : A) (fn : Fn G W) (s : S) : S × Option Err 
     | (s2, none) => run sys a fn.post s2
 
 end Nix.Guarded
+
+namespace Nix.Guarded
+
+variable {A S G W : Type}
+
+/-- a history of calls on one object: every call brings its arguments and the statements it runs -/
+def runHistory (sys : Sys A S S G W) : List (A × List (Step G W)) → S → S
+  | [], s => s
+  | c :: r, s => runHistory sys r (run sys c.1 c.2 s).1
+
+/-- the same history with every refused call left out -/
+def runAccepted (sys : Sys A S S G W) : List (A × List (Step G W)) → S → S
+  | [], s => s
+  | c :: r, s =>
+    match (run sys c.1 c.2 s).2 with
+    | none => runAccepted sys r (run sys c.1 c.2 s).1
+    | some _ => runAccepted sys r s
+
+end Nix.Guarded
